@@ -53,6 +53,11 @@ def gen(rng, i, tier):
             args.append(a)
         else:
             args.append(a)
+    if entry.startswith("Transformer.") and "_to_" in entry and rng.random() < 0.12 and len(args) >= 3 and not np.isscalar(args[2]) and args[2] is not None:
+        # every output point is computed, whatever the length of the output grid (1 point; one more than a multiple of a block size)
+        m = int(rng.choice([1, 257, 513, 129]))
+        hi = float(np.max(args[2])) if len(np.atleast_1d(args[2])) else 5.0
+        args[2] = np.linspace(0.05, max(hi, 1.0), m) if not intv else np.arange(1, m + 1, dtype=float)
     kw = dict(c["kw"])
     if intv:
         for k in ("xmin", "xmax"):
